@@ -748,6 +748,14 @@ namespace link_layer {
         // TODO Make handle_pending_ll_control() impossible to fail by checking PDUs immediately
         ll_result handle_pending_ll_control( std::uint16_t instance );
 
+        /*
+         * A PDU is handled after the connection event, in which it was received. The instant
+         * of a procedure can only be met, if it is the connEventCount of one of the next
+         * connection events. (Core Spec: (Instant - connEventCount) modulo 65536 greater
+         * than or equal to 32767 denotes an instant in the past).
+         */
+        bool instant_passed( std::uint16_t instant ) const;
+
         connection_details details() const;
 
         static constexpr unsigned       first_advertising_channel   = 37;
@@ -1560,7 +1568,7 @@ namespace link_layer {
                 defered_conn_event_counter_ = read_16bit( &body[ 10 ] );
                 commit = false;
 
-                if ( static_cast< std::uint16_t >( defered_conn_event_counter_ - this->connection_event_counter() + 1 ) & 0x8000
+                if ( instant_passed( defered_conn_event_counter_ )
                     || defered_conn_event_counter_ == this->connection_event_counter() + 1 )
                 {
                     disconnecting_reason_ = connection_instant_passed;
@@ -1600,7 +1608,7 @@ namespace link_layer {
                 defered_conn_event_counter_ = read_16bit( &body[ 6 ] );
                 commit = false;
 
-                if ( static_cast< std::uint16_t >( defered_conn_event_counter_ - this->connection_event_counter() ) & 0x8000 )
+                if ( instant_passed( defered_conn_event_counter_ ) )
                 {
                     disconnecting_reason_ = connection_instant_passed;
                     result = ll_result::disconnect;
@@ -1685,7 +1693,14 @@ namespace link_layer {
             }
             else if ( this->handle_phy_request( opcode, size, pdu, write, *this, commit ) )
             {
-                // all phy PDU handled in handle_phy_reqest
+                // all phy PDU handled in handle_phy_reqest; a defered LL_PHY_UPDATE_IND is subject
+                // to the same instant rules as the other procedures with an instant
+                if ( !defered_ll_control_pdu_.empty() && instant_passed( defered_conn_event_counter_ ) )
+                {
+                    defered_ll_control_pdu_ = write_buffer{ nullptr, 0 };
+                    disconnecting_reason_   = connection_instant_passed;
+                    result = ll_result::disconnect;
+                }
             }
             else if ( opcode != LL_UNKNOWN_RSP )
             {
@@ -1745,6 +1760,14 @@ namespace link_layer {
         }
 
         return result;
+    }
+
+    template < class Server, template < std::size_t, std::size_t, class > class ScheduledRadio, typename ... Options >
+    bool link_layer< Server, ScheduledRadio, Options... >::instant_passed( std::uint16_t instant ) const
+    {
+        const std::uint16_t distance = instant - this->connection_event_counter();
+
+        return distance == 0 || distance >= 32767;
     }
 
     template < class Server, template < std::size_t, std::size_t, class > class ScheduledRadio, typename ... Options >
